@@ -21,6 +21,8 @@ func TestChild(t *testing.T) {
 	switch plan.Rig {
 	case "R":
 		RunRigR(t, plan)
+	case "C":
+		RunRigC(t, plan)
 	case "WD":
 		RunRigWD(t, plan)
 	case "W7":
